@@ -51,7 +51,7 @@ func (Engine) Run(c *simkit.Choices, x *simkit.Ctx) *simkit.Violation {
 }
 
 func opsOpts(x *simkit.Ctx, f model.Format) model.OpsOpts {
-	oo := model.OpsOpts{Extended: true, NonFinite: f != model.JSON, BigUint: true, Hints: true, MaxDepth: 3, Budget: 10, MaxStr: 80}
+	oo := model.OpsOpts{Extended: true, NonFinite: f != model.JSON, BigUint: true, Hints: true, MaxDepth: 3, Budget: 10, MaxStr: 80, DeepChains: true}
 	if x.Thorough {
 		oo.Budget, oo.MaxDepth, oo.MaxStr = 20, 6, 300
 	}
